@@ -183,15 +183,21 @@ func runCloser(c *core.Ctx) {
 		return closeErr
 	}
 	isRead := c.S.PlanP(500)
+	nilClose := c.S.PlanP(120)
+	var closeArg func() error = closeFn
+	if nilClose {
+		closeArg = nil
+		closeErr = nil
+	}
 	var rw interface {
 		Close() error
 	}
 	var do func(p []byte) (int, error)
 	if isRead {
-		r := iocloser.NewReadCloser(st, closeFn)
+		r := iocloser.NewReadCloser(st, closeArg)
 		rw, do = r, r.Read
 	} else {
-		x := iocloser.NewWriteCloser(st, closeFn)
+		x := iocloser.NewWriteCloser(st, closeArg)
 		rw, do = x, x.Write
 	}
 	nact := c.IntRange(1, 3)
@@ -240,7 +246,7 @@ func runCloser(c *core.Ctx) {
 				}
 				// (a Close that loses the race against a concurrent Close may return
 				// before the winner has run the close function: only the total is fixed)
-				if nclose == 1 && w.closeCalls != 1 {
+				if nclose == 1 && w.closeCalls != 1 && !nilClose {
 					c.Fail("C20.K1.close-func-count", "after Close returned the close function has run %d times", w.closeCalls)
 					return
 				}
@@ -263,7 +269,7 @@ func runCloser(c *core.Ctx) {
 	if n, err := do(buf); n != 0 || err != io.EOF {
 		c.Fail("C20.K3.after-close-result", "a call after Close gave (%d,%v), expected (0,EOF)", n, err)
 	}
-	if w.closeCalls != 1 {
+	if w.closeCalls != 1 && !nilClose {
 		c.Fail("C20.K1.close-func-count", "the close function ran %d times", w.closeCalls)
 	}
 	c.S.Count("probe:closer")
